@@ -257,6 +257,17 @@ void SQuIDS::Set_xrange(double xi, double xf, std::string type){
   }else{
     throw std::runtime_error("SQUIDS::Set_xrange : Not well deffined X range");
   }
+  //The end nodes are the requested ends exactly (exp(log(xi)) is in general
+  //not xi, so Get_i(xi) or Get_i(xf) would otherwise be rejected as out of
+  //bounds), and no interior node lies outside them.
+  if(xf>xi){
+    for(unsigned int e1 = 1; e1+1 < nx; e1++){
+      if(x[e1]<xi) x[e1]=xi;
+      if(x[e1]>xf) x[e1]=xf;
+    }
+  }
+  x[0]=xi;
+  x[nx-1]=xf;
 }
 
 double SQuIDS::GetExpectationValue(SU_vector op, unsigned int nrh, unsigned int i) const{
